@@ -261,7 +261,7 @@ theorem fact_maxRangeItems : Generated.maxRangeItems = maxRangeItems := by decid
 /-- the bound is checked in one place, on the size of the range itself (rhs − lhs + 1), with the
     overflow guard — not, for instance, on the length of an array under construction -/
 theorem fact_range_guard :
-    Generated.rangeGuards = ["evalRange | size < 0 || size > maxRangeItems | size := int(hi-lo) + 1"] := by decide
+    Generated.rangeGuards = ["size < 0 || size > maxRangeItems | size := int(hi-lo) + 1"] := by decide
 
 def allEvalErrKinds : List EvalErrKind :=
   [.nonIntegerLHS, .nonIntegerRHS, .nonNumberLHS, .nonNumberRHS, .nonComparableLHS,
